@@ -1014,6 +1014,7 @@ func c06Enumerations(e *env) []c06Plan {
 	plans = append(plans, c06Plan{c: c06Render{Kind: "render", Files: []srcFile{{Name: "tail.soy", Text: msgPlural}}, Template: "m.t", Data: valueSexp(data.Map{"i": data.Int(3), "u": data.String("two")}, ids), Tag: "msg-tail"}, nontriv: true})
 	plans = append(plans, c06EnumBundles("enum-floats", c06FloatBodies(), 40)...)
 	plans = append(plans, c06SameNamePlans()...)
+	plans = append(plans, c06JsonPlans()...)
 	// duplicate template names: the ledger's witness, both file orders, error in the long and in the short file
 	long := "{namespace a}\n" + strings.Repeat("// padding padding padding\n", 10) + "/** */\n{template .t}\n{1 < 'a'}\n{/template}\n"
 	short := "{namespace a}\n/** */\n{template .t}\nx{1 % 0}\n{/template}\n"
